@@ -4,7 +4,7 @@ Each monitor takes (cfg, eff, recs) and returns a list of hits
 {'prop': 'Cxx', 'step': i, 'what': text}.  eff = (effective alg id, maxsize) the decorator should
 have according to its constructor arguments.
 """
-from cache_trace import ALGS, g
+from cache_trace import ALGS, g_cfg, vcode, realcall
 
 
 def _alg(eff):
@@ -23,10 +23,19 @@ def mon_c01(cfg, eff, recs):
     hits = []
     for i, r in enumerate(recs):
         if r['op'][0] == 'call' and r['out'][0] == 'ret':
-            if r['out'][1] != g(r['op'][1]):
+            want = vcode(g_cfg(cfg, r['op'][1]))
+            if r['out'][1] != want:
                 hits.append({'prop': 'C01', 'step': i,
-                             'what': 'call f(%r) returned %r, the function returns %r'
-                                     % (r['op'][1], r['out'][1], g(r['op'][1]))})
+                             'what': 'call f%r returned %r, the function returns %r'
+                                     % (realcall(r['op'][1]), r['out'][1], want)})
+            rec = r['extra'].get('received')
+            if rec is not None:
+                ar, kwd = realcall(r['op'][1])
+                x = ar[0] if ar else kwd.get('x')
+                y = ar[1] if len(ar) > 1 else kwd.get('y', 0)
+                if repr((x, y)) != repr(rec) and not (x is rec[0]):
+                    hits.append({'prop': 'C01', 'step': i,
+                                 'what': 'the function was evaluated on %r, the caller passed %r' % (rec, (x, y))})
     return hits
 
 
@@ -197,8 +206,20 @@ def mon_c16(cfg, eff, recs):
         elif r['out'][0] == 'raise' and cfg['safe']:
             hits.append({'prop': 'C16', 'step': i,
                          'what': 'safe cache failed with %s for argument %r (key result %r)' % (r['out'][1], a, kr)})
-        elif r['out'][0] == 'ret' and cfg['safe'] and kr and kr[0] != 'ok' and r['out'][2] != 1:
-            hits.append({'prop': 'C16', 'step': i, 'what': 'safe fallback evaluated %d times' % r['out'][2]})
+        elif r['out'][0] == 'ret' and cfg['safe'] and kr and kr[0] != 'ok':
+            if r['out'][2] != 1:
+                hits.append({'prop': 'C16', 'step': i, 'what': 'safe fallback evaluated %d times' % r['out'][2]})
+            want = vcode(g_cfg(cfg, a))
+            if r['out'][1] != want:
+                hits.append({'prop': 'C16', 'step': i,
+                             'what': 'safe fallback for %r returned %r, the function returns %r' % (realcall(a), r['out'][1], want)})
+            rec = r['extra'].get('received')
+            if rec is not None:
+                ar, kwd = realcall(a)
+                x = ar[0] if ar else kwd.get('x')
+                if repr(x) != repr(rec[0]) and x is not rec[0]:
+                    hits.append({'prop': 'C16', 'step': i,
+                                 'what': 'safe fallback evaluated the function on %r, the caller passed %r' % (rec[0], x)})
     return hits
 
 
